@@ -34,6 +34,7 @@
 #include <vector>
 #include "common.h"
 #include <sys/resource.h>
+#include <sys/time.h>
 
 #ifndef C07_COL
 #define C07_COL NAIVE_VECTOR
@@ -241,7 +242,8 @@ int main() {
     rl.rlim_cur = 60; rl.rlim_max = 65;
     setrlimit(RLIMIT_CPU, &rl);
     signal(SIGXCPU, vh::on_crash);
-    signal(SIGALRM, vh::on_crash);  // per-case watchdog (wall clock): a case takes microseconds, 20 s means a hang
+    signal(SIGVTALRM, vh::on_crash);  // per-case watchdog on the process' own CPU time (a loaded machine must not trip it):
+                                      // a case takes microseconds, 20 s of CPU means a runaway loop
   }
   std::string line;
   static char buf[1 << 20];
@@ -255,7 +257,7 @@ int main() {
     if (!parse_case(line, mode, dimmax, shortest, ops)) { vh::emit("BADLINE"); continue; }
     // the answer of a crashing case must identify the case: flush what precedes, so that the CRASH line is its answer
     vh::flush();
-    alarm(20);
+    { struct itimerval tv = {{0, 0}, {20, 0}}; setitimer(ITIMER_VIRTUAL, &tv, nullptr); }
     std::string r;
     try {
       if (mode == 'Z') r = run_Z(ops);
@@ -266,7 +268,7 @@ int main() {
     } catch (const std::exception& e) {
       r = std::string("EXC-OUTER ") + e.what();
     }
-    alarm(0);
+    { struct itimerval tv = {{0, 0}, {0, 0}}; setitimer(ITIMER_VIRTUAL, &tv, nullptr); }
     vh::emit(r);
   }
   vh::flush();
